@@ -7,7 +7,7 @@ TRANSLATORS = []
 LEVEL = "proof"
 ASSUMPTIONS = [
     "management calls = the ManagementEnforcer add/remove/update API (single, batch, filtered) and save_policy; the RBAC wrappers (delete_user ...) are compositions of those and notify once per composed call",
-    "the order 'notification after the in-memory and adapter changes' is checked on the real code only (the watcher callback inspects memory and the adapter's store), not stated as a theorem",
+    "the order 'notification after the in-memory and adapter changes': Props/C20o (adapter calls precede notifications in the model's single event sequence, tied to the real call order) and, on the real code, the watcher callback inspects memory and the adapter's store at the moment it is called",
 ]
 TRUSTED_EXTRA = []
 
